@@ -284,9 +284,32 @@ PROP_NOTES = {
 }
 
 
+# Harnesses that were built but did not finish within their caps on the unchanged tree (see DESIGN
+# 9.4): kept runnable with `--tier experimental`, never part of the quick / thorough commands.
+EXPERIMENTAL = {
+    "c06_wide_hex32_i64_pos", "c06_wide_hex32_i64_neg", "c06_wide_hex32_i128_pos", "c06_wide_hex32_i128_neg", "c06_wide_hex33_u128",
+    "c06_base64_pad2", "c06_base64_pad1", "c06_base64_pad0",
+    "c07_bb_keymap_within", "c07_bb_anchors_within", "c07_bb_abandoned_within", "c07_bb_abandoned_nodelimit", "c07_bb_abandoned_depthlimit",
+    "c07_bb_twodocs_within", "c07_bb_anchors_anchorlimit", "c07_bb_anchors_aliaslimit", "c07_bb_twodocs_eventlimit", "c07_bb_twodocs_anchorlimit",
+    "c12_write_quoted_1", "c12_write_quoted_2", "c20_folded_block_3", "c20_folded_block_4",
+    "c17_coords_4", "c17_crop_window_2", "c17_crop_window_3", "c17_crop_window_4", "c17_source_window_2", "c17_source_window_3", "c17_source_window_4",
+    "c19_precedence", "c19_parentheses", "c19_units", "c19_units_mixed_with_bare", "c19_tag_only", "c19_total_3", "c19_total_4",
+}
+
+
 def harnesses_for(prop, tier):
     out = []
     for h in HARNESSES:
+        if h["name"] in EXPERIMENTAL:
+            if tier == "experimental" and prop in h["props"]:
+                out.append(h)
+            continue
+        if tier == "experimental":
+            continue
+        if tier == "thorough-only":
+            if prop in h["props"] and h["tier"] == "thorough":
+                out.append(h)
+            continue
         if prop in h["props"] and (h["tier"] == "quick" or tier == "thorough"):
             # C01 (totality) is served by the panic/overflow/bounds/unwinding obligations of harnesses
             # that primarily decide other properties; its quick tier takes the cheap ones only
